@@ -61,7 +61,8 @@ PROPERTY = "C05"
 DRIVER = "drv_c05"
 PROPS = ["PartituraModel.Props.C05", "PartituraModel.Props.C05Compose", "PartituraModel.Props.C05Collapse",
          "PartituraModel.Props.C05Back", "PartituraModel.Props.C05Ts", "PartituraModel.Props.C05Tables",
-         "PartituraModel.Props.C05Columns", "PartituraModel.Props.C05San", "PartituraModel.Props.C05Stored"]
+         "PartituraModel.Props.C05Columns", "PartituraModel.Props.C05San", "PartituraModel.Props.C05Stored",
+         "PartituraModel.Props.C05StoredScore", "PartituraModel.Props.C05Order", "PartituraModel.Props.C05TsStored"]
 TRUSTED = [
     "the timeline reads that describe a part to the model (property C01): len(part._points), first/last point, "
     "_quarter_times/_quarter_durations, iter_all(TimeSignature | KeySignature | Measure) with their start/end times, "
@@ -70,13 +71,16 @@ TRUSTED = [
     "numpy structured arrays, np.argsort(kind='mergesort') stable, default argsort = some permutation sorted by key, "
     "np.lexsort, np.hstack, np.lcm.reduce, rfn.merge_arrays; iterating a structured array yields views of its rows",
     "floats: the model rounds exact rationals with f32round / f64round (round to nearest even, 24 / 53 bits; compared "
-    "with numpy.float32 / Python float on generated values, requests `f32`, `f64`).  For Part.note_array and the "
-    "uncollapsed Part.rest_array the binary64 evaluation inside scipy's interpolator and the binary32 store are modelled "
-    "operation by operation (Model/NoteArrayF64.lean) and compared with tolerance 0 (requests `partf`, `restsf`): the "
-    "sort key is the stored column (C05.stored_table_sorted).  np.isclose in the pickup test is evaluated with exact "
-    "thresholds; overflow is not modelled.  Score-level tables, collapsed rest arrays and the inverse direction keep the "
-    "exact-rational model compared within 2^-20 relative (there the sort key f32(exact beat) is assumed to order the "
-    "rows like the stored column)",
+    "with numpy.float32 / Python float on generated values, requests `f32`, `f64`).  For EVERY note-array and rest-array "
+    "entry point (part, group, score, list, nested groups; rest arrays collapsed or not) the binary64 evaluation inside "
+    "scipy's interpolator, the binary32 store and the binary32 sums of collapse_rests are modelled operation by operation "
+    "(Model/NoteArrayF64.lean) and compared with tolerance 0 (requests `partf`, `restsf`, round 6: `scoref`, `restlistf`, "
+    "`restsfc`): the sort key is the stored column (C05.stored_table_sorted, every_entry_point_sorted_on_stored_column).  "
+    "np.isclose in the pickup test is evaluated with exact thresholds; overflow is not modelled; that numpy adds two "
+    "float32 scalars with one rounding is assumed.  Inverse direction: the table that comes back for arrays with "
+    "changing signature columns is modelled on the stored values as well (Model/NoteArrayTsF.lean, request `invxf`, "
+    "tolerance 0); the requests `inv` / `invback` (one signature, what the onsets are moved by) keep the exact-rational "
+    "model compared within 2^-20 relative",
     "Fraction.limit_denominator (modelled and compared on every generated value), Python round/int on binary64",
     "estimate_spelling / estimate_voices keep the pitch (C17): in the model of the created part a spelling that keeps "
     "every integer pitch stands for them (`dummySpell`, C12.midi_spelling); tie_notes / find_tuplets / sanitize_part "
@@ -91,8 +95,10 @@ TRUSTED = [
     "the `name_id` / id assignment (ids are not compared in this direction)",
     "harness/translate_c05.py reads the literal data (field lists, option -> map selection, keyword defaults, missing-"
     "voice marker, id prefix format, sort kinds, limit_denominator, lexsort keys, the column names of the signature "
-    "switches) off the live source with `ast` / `inspect`; an item whose form it cannot read is left empty and its "
-    "theorem holds vacuously (Gen.C05.unreadable; the example at the end of Props/C05Tables.lean shows it is empty here)",
+    "switches; round 6: the columns note_array_from_part_list rescales, the option it forces, the divisions of an empty "
+    "table, the columns collapse_rests sums and tests) off the live source with `ast` / `inspect`; an item whose form it cannot read is left empty and its "
+    "theorem holds vacuously (Gen.C05.unreadable; the evidence reports their number as translator_unreadable_items - 0 on "
+    "the unchanged tree; round 6: no `example` demands it any more, a harmless rewriting must not break the build)",
     "inverse direction, what comes back (request `invback`): the model is told the one time signature the new part gets "
     "(columns of the array / time_sigs / 4/4 for estimate_time) and the sanitize flag; of add_measures only the first "
     "measure (to the bar line or the end of the part) and of the time maps only the pickup rule are modelled (C11 / C02 "
@@ -103,19 +109,25 @@ TRUSTED = [
 ]
 PARTIAL = [
     "collapse=True: collapse_float_totals_partial is for exact float columns; with float32 columns the merged beat / "
-    "quarter durations are float32 sums (compared within 2^-20; the division totals and which rests merge are proved for "
-    "every rounding: collapse_total, collapse_merges_adjacent); totals are per VOICE (the code ignores the staff); "
+    "quarter durations are float32 sums, left to right, one rounding per addition (collapse_float_sums says exactly that "
+    "for every rounding; compared bit for bit, stream `restsfc`) - they equal the exact total only up to rounding, which "
+    "is not bounded by a theorem; the division totals and which rests merge are proved for every rounding (collapse_total, "
+    "collapse_merges_adjacent; on the stored table: stored_collapse); totals are per VOICE (the code ignores the staff); "
     "the hypotheses CleanTable (rows ordered by onset_div, positive durations, no overlap within a voice) are checked by "
     "the oracle on each generated part, overlapping rests are compared with the model only",
     "binary64: that the operation-by-operation evaluation (fwd64) stays within a bound of the exact C02 map (fwd) is not "
     "a theorem; both are tied to the code by the correspondence (tolerance 0 / 2^-20) and row_values_composed speaks of "
-    "the exact map, stored_columns of the binary64 one",
+    "the exact map, stored_columns of the binary64 one.  Likewise the order against the TIMELINE (Props/C05Order.lean: "
+    "earlier in divisions = no larger stored onset; ordered by onset_div outright where binary32 keeps the onsets apart) "
+    "is proved for the exact-map table rowsC (C02 strict monotonicity + float32_monotone), not for the binary64 one: "
+    "that fwd64 is monotone across knots is not a theorem.  beat_order_eq keeps its hypothesis: its `=` half is false "
+    "for onsets closer than the binary32 spacing (kernel-checked example in Props/C05Order.lean)",
     "inverse direction, sanitize=True: from_to_array_x / time_signature_columns_come_back / key_signature_columns_come_back "
     "are about the table of the created part BEFORE tie_notes (its notes are untied), sanitize_keeps_created_notes (C11 "
     "composed, no side condition) says tie_notes / find_tuplets / sanitize_part keep those rows in C11's representation of "
     "a note list (keys); that the two representations of a TIED note list (C11: keys, C05: indices) give the same table "
     "is not a theorem - the `invx` stream compares the pieces of tie_notes and the whole table with the real part",
-    "Props/C05Ts.lean: the signature columns come back for arrays WITH division columns (beat-only arrays get their "
+    "Props/C05Ts.lean, Props/C05TsStored.lean (the same theorems of the table as stored): the signature columns come back for arrays WITH division columns (beat-only arrays get their "
     "divisions from create_divs_from_beats: compared and judged by the oracle, not proved); that the BEAT columns come "
     "back over several signatures is not a theorem (composition of C02's knots with the change list): correspondence "
     "`invx` + oracle 'inverse onsets back' on self-consistent arrays; Props/C05Back.lean proves it for one signature",
@@ -144,7 +156,10 @@ RULE = ("generated parts (explicit measures, optional pickup, time/key signature
         "without options (defaults); arrays whose ts / ks columns change and return (patterns ABA, ABAB, ABCA, AABA, ...) x "
         "{div, both, beat columns} x {columns, time_sigs list} x pickup x sanitize x key columns under both spellings of their "
         "names x voices from 0, one third of them taken from generated parts (24 per quick run, 600 thorough); the id prefix "
-        "format applied by Python against the model.  distinct = distinct request text; non-trivial = at least one row compared")
+        "format applied by Python against the model.  Round 6: every score / group / list / rest-list / collapsed table that "
+        "comes back is compared a second time with tolerance 0 against the stored-value model (counts by entry point, "
+        "nesting, lcm exceeding every part, rests actually merged: features stored_*), and so is the table that comes back "
+        "from every `invx` array (`invxf`).  distinct = distinct request text; non-trivial = at least one row compared")
 LEVEL_TEXT = ("Lean 4 theorems over an executable model of the table construction (tie chains, voice/staff replacement, "
               "two-pass sort, lcm rescaling, id prefixing, rest collapsing, entry-point dispatch, inverse construction incl. "
               "when the onsets are shifted, where the pickup measure ends and which quarter / beat onsets come back), "
@@ -160,7 +175,16 @@ LEVEL_TEXT = ("Lean 4 theorems over an executable model of the table constructio
               "literal data of the source (dtype field lists, option -> map selection, defaults, markers, formats) is "
               "regenerated on every run and proved equal to what the model implements for all 2^8 option vectors; the "
               "float columns of part-level arrays are modelled bit for bit (binary64 evaluation, binary32 store) and the "
-              "order of the table is proved on the stored column.")
+              "order of the table is proved on the stored column.  Round 6: the same for every entry point - score, group, "
+              "list, nested groups, rest lists, collapse=True: the dispatch is ONE function over a part table (proved equal "
+              "to the round-2 dispatch at the exact table), every row of a score-level table is proved to carry the stored "
+              "cells of a note of one of its parts with the division columns multiplied by lcm / divisions and divs_pq = lcm "
+              "(stored_score_rows), the table is ordered by the stored onset_beat column for every entry point, and all of "
+              "it is compared with the real arrays with tolerance 0.  'Ordered by onset' is proved against the timeline: "
+              "binary32 rounding is monotone (all rationals), the beat map strictly increasing (C02), so the table is in "
+              "timeline order except inside groups of rows whose stored onsets coincide (table_order_follows_the_timeline).  "
+              "The inverse construction is one function over a part table too: onsets / durations / pitches and the time- "
+              "and key-signature columns come back in the table as numpy stores it (Props/C05TsStored.lean, stream invxf).")
 
 FLOATCOLS = ("onset_beat", "duration_beat", "onset_quarter", "duration_quarter")
 RTOL = 2.0 ** -20
@@ -1125,6 +1149,15 @@ def evaluate(d):
             if multi:
                 continue
             nrows += len(na)
+            # score-level tables BIT FOR BIT (round 6): the merge copies the stored float cells of the part tables and
+            # sorts on the stored onset_beat column (Model/NoteArrayF64.lean `ensureNoteArrayF`); tolerance 0
+            ev.requests.append("scoref %s %s %s %s" % (entry, W.b(u), " ".join(W.b(x) for x in o), items_wire(tree, wires)))
+            ev.info["scoref"] = ev.info.get("scoref", 0) + 1
+            ev.info["scoref_rows"] = ev.info.get("scoref_rows", 0) + len(na)
+            ev.info["scoref_nested"] = ev.info.get("scoref_nested", 0) + int(nested)
+            ev.info["scoref_lcm_exceeds_all"] = ev.info.get("scoref_lcm_exceeds_all", 0) + int(lcm_list(divs) > max(divs))
+            ev.info["scoref_" + entry] = ev.info.get("scoref_" + entry, 0) + 1
+            ev.impl.append(("@approx", table_nested(na), 0.0))
             want_names = expected_names(o, True)
             if list(na.dtype.names) != want_names:
                 fails.append("score columns: options %s give %s, expected %s" % (o, list(na.dtype.names), want_names))
@@ -1217,6 +1250,11 @@ def evaluate(d):
                 check_rows(na, [(part, exp)], "rests", fails)
                 check_described(na, [pd], [""], "rests", fails)
             else:
+                # collapse=True on the stored array (round 6): float32 sums of the stored durations, tolerance 0
+                ev.requests.append("restsfc %s %s %s" % (W.b(collapse), " ".join(W.b(x) for x in o), wire))
+                ev.info["restsfc"] = ev.info.get("restsfc", 0) + 1
+                ev.info["restsfc_merged"] = ev.info.get("restsfc_merged", 0) + int(len(na) < len(exp))
+                ev.impl.append(("@approx", table_nested(na), 0.0))
                 check_collapsed(na, part, exp, fails)
         o0 = [False] * 7
         wire0 = safe_part_wire(pd, part, o0)
@@ -1258,6 +1296,14 @@ def evaluate(d):
                 fn = (lambda: g.rest_array(**kw)) if entry == "group" else (lambda: M.ensure_rest_array(g, **kw))
             na, e = obs(ev, "restlist %s %s %s %s %s" % (entry, W.b(u), W.b(collapse), " ".join(W.b(x) for x in o),
                                                          items_wire(tree, wires)), fn)
+            if e is None:
+                # rest arrays of lists / groups on the stored values (round 6), collapsed or not; tolerance 0
+                ev.requests.append("restlistf %s %s %s %s %s" % (entry, W.b(u), W.b(collapse), " ".join(W.b(x) for x in o),
+                                                                items_wire(tree, wires)))
+                ev.impl.append(("@approx", table_nested(na), 0.0))
+                ev.info["restlistf"] = ev.info.get("restlistf", 0) + 1
+                ev.info["restlistf_collapse"] = ev.info.get("restlistf_collapse", 0) + int(collapse)
+                ev.info["restlistf_nested"] = ev.info.get("restlistf_nested", 0) + int(nested)
             if e is not None:
                 if not (is_refusal(e) and (entry == "ensure_score" or (entry == "ensure_list" and nested))):
                     fails.append("restlist raised: %s: %s" % (type(e).__name__, str(e)[:200]))
@@ -1937,6 +1983,10 @@ def evaluate_invx(d, ev):
                                 "t:" + ";".join("%d.%d.%d" % t for t in tss), "k:" + ";".join("%d.%d.%d" % k for k in kss), "n:" + ";".join("%d-%d" % x for x in pieces),
                                 [[b[3], b[4], b[5], b[6], "r:" + "/".join("%d" % x for x in b[:3] + b[7:])] for b in back]],
                     RTOL))
+    # the table that comes back BIT FOR BIT (round 6): binary64 maps of the created part, binary32 store; tolerance 0
+    ev.requests.append("invxf " + " ".join(toks))
+    ev.impl.append(("@approx", ev.impl[-1][1], 0.0))
+    ev.info["invxf"] = 1
     if not (arr == before).all():
         ev.oracle.append("inverse frame: note_array_to_score modified its argument")
     ev.info["measures"] = len(ms)
@@ -2171,6 +2221,17 @@ def distribution(descs, results):
     feats["inv_notes_split_by_tie_notes"] = sum(1 for r in results if r.get("info", {}).get("split", 0) > 0)
     feats["musical_beats"] = sum(1 for d in descs for pd in ([d["part"]] if "part" in d else d.get("parts", [])) if pd.get("musical"))
     feats["collapse"] = sum(1 for d in descs if (d["k"] == "rests" and any(c[6] for c in d["combos"])) or (d["k"] == "restlist" and d.get("collapse")))
+    # round 6: the streams that compare score-level / list / collapsed tables with tolerance 0, by shape
+    for r in results:
+        for k, v in (r.get("info") or {}).items():
+            if k.startswith(("scoref", "restsfc", "restlistf", "invxf")):
+                feats["stored_" + k] += v
+    try:
+        import translate_c05 as T5
+
+        feats["translator_unreadable_items"] = len(T5.extract()[1])
+    except Exception:
+        feats["translator_unreadable_items"] = -1
     errs = sum(1 for r in results for x in r.get("impl", []) if x == "err")
     maperr = sum(r.get("info", {}).get("maperr", 0) for r in results)
     return {"by_kind": dict(c), "features": dict(feats), "error_observations": errs, "options_skipped_map_raises": maperr}
